@@ -262,6 +262,9 @@ pub fn run(ctx: &Ctx) {
         );
     }
     // the same workload under Miri
+    if crate::lib_only() {
+        return;
+    }
     if let Some(o) = crate::c18::miri_run(ctx, "c20", ctx.seed, 600) {
         crate::c18::judge_miri(ctx, "C20", "c20", &o);
         ctx.sample("miri run", 1, || json!({"mode": "c20", "stdout": o.stdout_s().trim()}));
